@@ -272,6 +272,29 @@ def coq_mod_case(g, plain, residue_atoms, mods):
     return f"show_mods (apply_mod mod_applicable {table} {residues} {{| ml_atoms := {atoms}; ml_inters := {inters} |}} {targets})"
 
 
+def mod_interaction_probe(ctx):
+    """a terminal modification that carries an interaction over three of the atoms it names: the interaction is written on
+    exactly those atoms of the target residue"""
+    text = MOD_FF + '\n'.join(['[ modification ]', 'ANG', '[ atoms ]', 'BB {"replace": {"charge": 0.5}}', 'SC1 {}', 'SC2 {}',
+                                '[ angles ]', 'BB SC1 SC2 2 120 50', '[ bonds ]', 'BB SC2 1 0.41 900']) + '\n'
+    for resid_pos in (0, 2):
+        g = {'nres': 3, 'shape': 'path', 'resnames': ['LYS', 'GLY', 'LYS'], 'edges': [(0, 1), (1, 2)], 'r0': 1, 'keys': [0, 1, 2],
+             'order': [0, 1, 2], 'edge_order': [0, 1], 'flip': [False, False]}
+        mods = [(f'LYS{resid_pos + 1}', 'ANG')]
+        out = ffgen.run_pipeline(text, g, mods=mods)
+        ctx.case(('mod_interaction', resid_pos), nontrivial=True)
+        ctx.feature('modification_with_a_three_atom_interaction')
+        if 'error' in out:
+            ctx.violation('spec', f"modification with an angle failed: {out['error']}", {'mod_interaction': resid_pos})
+            continue
+        key = {(a['resid'], a['name']): a['key'] for a in out['mods']['atoms']}
+        want = [key[(resid_pos + 1, n)] for n in ('BB', 'SC1', 'SC2')]
+        got = [r['atoms'] for r in out['mods']['inters'].get('angles', []) if r['params'][:2] == ['2', '120']]
+        if got != [want]:
+            ctx.violation('spec', f"modification ANG on LYS{resid_pos + 1} defines the angle BB-SC1-SC2 (atoms {want}); the molecule carries {got}",
+                          {'mod_interaction': resid_pos})
+
+
 def mod_cases(ctx):
     """a modification changes nothing but the atoms it names in its target residue, whatever the
     node keys, the residue numbering and the other modifications of the same run"""
@@ -413,6 +436,7 @@ def run(ctx):
     if mism:
         ctx.broken.append('correspondence:MapToMolecule vs model/Blocks.v')
     mod_cases(ctx)
+    mod_interaction_probe(ctx)
     multi_residue_cases(ctx)
     removal_cases(ctx)
     pattern_replace_cases(ctx, ctx.n(12, 120))
